@@ -1551,6 +1551,8 @@ func main() {
 		processDeadline(subDeadline(tier)) // every wait inside is bounded; this is the last resort
 		sockSessions(tier)
 		acceptSessions(tier)
+		lifecycleSessions(tier)
+		observations() // last: what they observe may leave goroutines behind
 	case "race":
 		processDeadline(subDeadline(tier))
 		runRaces(tier)
